@@ -5,7 +5,8 @@
    capacity model VecCap.v.  PARTIAL: the operations not modelled (map, into_flattened, into_* conversions) are checked on the
    implementation against std::vec::Vec in lock-step only. *)
 From Coq Require Import List Arith ZArith.
-From BS Require Import Word VecCap VecCapProofs LibRefine CapRefine Colls CollsProofs.
+From BS Require Import Word VecCap VecCapProofs LibRefine CapRefine Colls CollsProofs SplitCap SplitRefine.
+From BS.gen Require SplitSites SplitFacts.
 From BS.gen Require LibArith CapSites.
 Import ListNotations.
 Close Scope Z_scope.
@@ -236,6 +237,34 @@ Theorem C08_mut_reserve_of_the_source_is_the_models :
   end.
 Proof. exact mv_reserve_is_model. Qed.
 
+(* the window arithmetic of the CURRENT FixedBumpVec::split_off (BumpVec::split_off wraps it), cut out branch by branch and
+   translated on every run (gen/SplitSites.v, gen/SplitFacts.v): in the two interior branches - the ones that rotate - the
+   offsets, lengths and capacities of both parts, the side `self` keeps and the rotation are SplitCap.split_off_windows
+   (SplitRefine.v; the two boundary branches likewise: split_off_tail_refines, split_off_front_refines) *)
+Theorem C08_source_split_off_windows_head_short :
+  forall (len cap a b : nat),
+  (0 < a)%nat -> (a < b)%nat -> (b < len)%nat -> (len <= cap)%nat -> (a < len - b)%nat ->
+  let '(keep, off) := split_off_windows len cap a b in
+  SplitFacts.so_headshort_self_keeps_lhs = false /\ SplitFacts.so_headshort_rotation_ok = true /\ SplitFacts.so_interior_defs_ok = true /\
+  woff off = 0%nat /\ SplitSites.so_headshort_lhs_len (Z.of_nat a) (Z.of_nat b) = Ok (Z.of_nat (wlen off)) /\
+  SplitSites.so_headshort_lhs_cap (Z.of_nat a) (Z.of_nat b) = Ok (Z.of_nat (wcap off)) /\
+  SplitSites.so_headshort_rhs_off (Z.of_nat a) (Z.of_nat b) = Ok (Z.of_nat (woff keep)) /\
+  SplitSites.so_headshort_rhs_len (Z.of_nat a) (Z.of_nat b) (Z.of_nat len) = Ok (Z.of_nat (wlen keep)) /\
+  SplitSites.so_headshort_rhs_cap (Z.of_nat a) (Z.of_nat b) (Z.of_nat cap) = Ok (Z.of_nat (wcap keep)).
+Proof. exact split_off_headshort_refines. Qed.
+
+Theorem C08_source_split_off_windows_tail_long :
+  forall (len cap a b : nat),
+  (0 < a)%nat -> (a < b)%nat -> (b < len)%nat -> (len <= cap)%nat -> (len - b <= a)%nat ->
+  let '(keep, off) := split_off_windows len cap a b in
+  SplitFacts.so_taillong_self_keeps_lhs = true /\ SplitFacts.so_taillong_rotation_ok = true /\
+  woff keep = 0%nat /\ SplitSites.so_taillong_lhs_len (Z.of_nat a) (Z.of_nat b) (Z.of_nat len) = Ok (Z.of_nat (wlen keep)) /\
+  SplitSites.so_taillong_lhs_cap (Z.of_nat a) (Z.of_nat b) (Z.of_nat len) = Ok (Z.of_nat (wcap keep)) /\
+  SplitSites.so_taillong_rhs_off (Z.of_nat a) (Z.of_nat b) (Z.of_nat len) = Ok (Z.of_nat (woff off)) /\
+  SplitSites.so_taillong_rhs_len (Z.of_nat a) (Z.of_nat b) = Ok (Z.of_nat (wlen off)) /\
+  SplitSites.so_taillong_rhs_cap (Z.of_nat a) (Z.of_nat b) (Z.of_nat len) (Z.of_nat cap) = Ok (Z.of_nat (wcap off)).
+Proof. exact split_off_taillong_refines. Qed.
+
 Print Assumptions C08_truncate_spec.
 Print Assumptions C08_remove_spec.
 Print Assumptions C08_remove_panics_iff.
@@ -269,3 +298,5 @@ Print Assumptions C08_mut_bump_vec_growth_target_is_the_models.
 Print Assumptions C08_growth_conditions_are_the_models.
 Print Assumptions C08_reserve_of_the_source_is_the_models.
 Print Assumptions C08_mut_reserve_of_the_source_is_the_models.
+Print Assumptions C08_source_split_off_windows_head_short.
+Print Assumptions C08_source_split_off_windows_tail_long.
